@@ -15,12 +15,68 @@ SPECS = [
 def check(run):
     import c04 as c04mod
     run.functions += ['javadoc::find_content_string (%s)' % src_line('src/javadoc.rs', 'fn find_content_string'), 'validation::check_container', 'ast::Type::{simple_type,array,list,non_generic_list,map,non_generic_map}',
-                      'ast::Range::new', 'generated action wrappers (offsets handed to the lookup)', 'Diagnostic::from_parse_error']
+                      'ast::Range::new', 'generated action wrappers (offsets handed to the lookup)', 'Diagnostic::from_parse_error',
+                      'every user action rules::aidl::__actionN and its closures (panic sites)', 'Parser::add_content / validate and validation::validate (one result per id)']
     run.bounds += ['doc scan: <= 7 / 9 characters; containers nested once; offsets: all layouts (engine A)']
-    run.outside += ['the lexer and the regex crate ("any text" is "any token stream the lexer can emit")', 'line-col / unicode-segmentation', 'parse_javadoc', 'termination', 'one result per id / id tagging (HashMap bookkeeping)']
+    run.outside += ['the lexer and the regex crate ("any text" is "any token stream the lexer can emit")', 'line-col / unicode-segmentation', 'parse_javadoc', 'termination']
     run.assumptions += ['stub: line_col::LineColLookup::get_by_cluster -> (1, offset + 1) in the constructor harness', 'stub: alloc::fmt::format']
     run.extra['explanation'] = 'The four panic mechanisms named by the property anchors: doc back-scan (Kani), offsets given to the lookup are token boundaries (engine A, z3 over all layouts), arity assumptions (Kani), parse failures become diagnostics (engine M).'
     ksupport.decide(run, 'C01', SPECS, {'javadoc': native.sweep_javadoc, 'c08': native.sweep_c08, 'c04': native.sweep_c04})
     # offsets handed to the lookup are token boundaries: engine A obligation G2 (shared with C04)
     c04mod.boundary_obligations(run)
     c04mod.parse_error_obligation(run)
+
+    action_panic_obligation(run)
+    one_result_per_id_obligation(run)
+
+
+def action_panic_obligation(run):
+    """panic sites inside the grammar's user actions (and their closures): enumerated from the MIR; each must be infeasible"""
+    import re
+    import mir, mirror, replay
+    title = 'the grammar actions cannot panic: every panic / assert / unwrap / index site in the MIR of the user actions is infeasible for every word of the token pattern that guards it'
+    try:
+        prog = mir.Program(mir.dump_mir())
+        acts = [f for f in prog.fns if re.search(r'__action\d+(::\{closure#\d+\})*$', f.name)]
+        sites = []
+        for f in acts:
+            for bb, sts in f.blocks.items():
+                for st in sts:
+                    if st.startswith('assert(') or re.search(r'\bpanic\w*\(|::unwrap\(|::expect\(|unwrap_failed|expect_failed| as Index<|slice_index|panic_bounds_check', st):
+                        sites.append((f.name.split('::')[-1] if '{closure' not in f.name else f.name[-40:], st[:90]))
+        An = mirror.Analysis(replay.generated_parser(), prog)
+        viol, nq = An.constants()
+        reach = {k: v for k, v in viol.items() if k.startswith('panic-arm')}
+        seen = len(An.E.panics)
+    except (mir.Unsupported, RuntimeError) as e:
+        run.inconclusive(title, 'A', str(e)); return
+    if An.unsupported:
+        run.inconclusive(title, 'A', 'action outside the evaluator: ' + An.unsupported[0]); return
+    if reach:
+        w = list(reach.values())[0][0]
+        text = 'package p; interface I { void f(%s int a); }' % (w.get('word', 'in').strip('"'))
+        r = replay.project({'a.aidl': text})
+        run.violated(title, 'A', 'action-panic', {'sites': sites[:4], 'solver': w, 'native': str(r.get('panic'))[:120]}, bool(r.get('panic')), queries=nq, detail='a panic arm of a grammar action is reachable')
+    elif len(sites) != seen:
+        run.inconclusive(title, 'A', '%d panic sites in the MIR of the actions but %d reached by the evaluator: %s' % (len(sites), seen, sites[:3]))
+    else:
+        run.holds(title, 'A', queries=max(1, nq), bound='%d action functions and closures; %d panic site(s): %s' % (len(acts), len(sites), [s0 for s0, _ in sites]))
+
+
+def one_result_per_id_obligation(run):
+    import mir, framecheck, histcheck
+    import c11
+    title = 'one result per id, tagged with that id: add_content stores ParseFileResult{id: clone of id, ..} under id; validate returns exactly the stored ids, each result carrying the id it was stored under'
+    try:
+        prog = mir.Program(mir.dump_mir())
+        ok1, n1, bad1 = framecheck.add_content(prog)
+        ok2, detail2 = c11.results_keyed_by_id(prog)
+        obs, nq = histcheck.analyse(prog)
+    except (mir.Unsupported, RuntimeError) as e:
+        run.inconclusive(title, 'M', str(e)); return
+    bad = list(bad1) + ([] if ok2 else [detail2]) + [o[2] for o in obs if o[1] != 'holds']
+    if not bad:
+        run.holds(title, 'M', queries=n1 + nq, bound='all MIR paths of add_content / validate / the per-file closure; unbounded histories (C12 invariant)')
+    else:
+        r = native.sweep_c12(2, 10, 20)
+        run.violated(title, 'M', 'id-bookkeeping', {'detail': bad[:3], 'native': r[1][:1]}, bool(r[1]), detail=str(bad[0])[:200])
